@@ -26,34 +26,43 @@ pub fn sd_jd_ord(s: &SolarDay) -> JulianDay {
 // harnesses above the civil kernel may use it without re-running the float formula.  The values handed out are kept
 // in a small table so that the harness can refer to them (`ghost_ord`).
 #[cfg(kani)]
-pub const GH_CAP: usize = 6;
+pub const GH_CAP: usize = 14;
 #[cfg(kani)]
-pub static mut GH_N: usize = 0;
+pub static mut GH_USED: [bool; GH_CAP] = [false; GH_CAP];
 #[cfg(kani)]
 pub static mut GH_KEY: [(i64, i64, i64); GH_CAP] = [(0, 0, 0); GH_CAP];
 #[cfg(kani)]
 pub static mut GH_VAL: [i64; GH_CAP] = [0; GH_CAP];
 
+/// loops below run over the constant capacity only (never over a count that could become symbolic after a merge)
 #[cfg(kani)]
 pub fn ghost_ord(y: i64, m: i64, d: i64) -> i64 {
   unsafe {
+    let mut found = false;
+    let mut val = 0i64;
     let mut k = 0;
-    while k < GH_N {
-      if GH_KEY[k] == (y, m, d) { return GH_VAL[k]; }
+    while k < GH_CAP {
+      if GH_USED[k] && GH_KEY[k] == (y, m, d) { found = true; val = GH_VAL[k]; }
       k += 1;
     }
+    if found { return val; }
     let v: i64 = kani::any();
     kani::assume(refcal::ORD_MIN <= v && v <= refcal::ORD_MAX);
     let mut k = 0;
-    while k < GH_N {
-      kani::assume(refcal::before(GH_KEY[k], (y, m, d)) == (GH_VAL[k] < v));
-      kani::assume(refcal::before((y, m, d), GH_KEY[k]) == (v < GH_VAL[k]));
+    while k < GH_CAP {
+      if GH_USED[k] {
+        kani::assume(refcal::before(GH_KEY[k], (y, m, d)) == (GH_VAL[k] < v));
+        kani::assume(refcal::before((y, m, d), GH_KEY[k]) == (v < GH_VAL[k]));
+      }
       k += 1;
     }
-    assert!(GH_N < GH_CAP, "ghost table capacity");
-    GH_KEY[GH_N] = (y, m, d);
-    GH_VAL[GH_N] = v;
-    GH_N += 1;
+    let mut inserted = false;
+    let mut k = 0;
+    while k < GH_CAP {
+      if !inserted && !GH_USED[k] { GH_USED[k] = true; GH_KEY[k] = (y, m, d); GH_VAL[k] = v; inserted = true; }
+      k += 1;
+    }
+    assert!(inserted, "ghost table capacity");
     v
   }
 }
@@ -222,4 +231,95 @@ pub fn sd_next_in_month(s: &SolarDay, n: isize) -> SolarDay {
   // any other use is outside this stand-in's contract: flagged, never silently assumed away
   assert!(false, "SolarDay::next used outside the month-listing contract (not from the 1st, or beyond the month)");
   SolarDay::from_ymd(y as isize, m as usize, d as usize)
+}
+
+// ---- day counts relative to a base month (no table, no loops over symbolic counts, no division) --------------------
+/// The harness fixes a base month (BASE_Y, BASE_M) and an arbitrary day count BASE_O for its first day.  Within four
+/// months of it, `SolarDay::get_julian_day` is BASE_O + (days between) - 0.5, the days between being the sum of month
+/// lengths (`refcal::rel_offset`; 01.c + 01.r + 13.L).  Because BASE_O is arbitrary the first of the month falls on
+/// an arbitrary weekday.  Dates further away are reported as a failed check (contract), never assumed away.
+#[cfg(kani)]
+pub static mut BASE_Y: i64 = 0;
+#[cfg(kani)]
+pub static mut BASE_M: i64 = 0;
+#[cfg(kani)]
+pub static mut BASE_O: i64 = 0;
+
+/// returns the arbitrary day count chosen for (y, m, 1); natively the real one
+pub fn set_base(i: &mut crate::nd::In, y: i64, m: i64) -> i64 {
+  let o = i.int(crate::refcal::ORD_MIN + 200, crate::refcal::ORD_MAX - 200);
+  #[cfg(kani)]
+  unsafe { BASE_Y = y; BASE_M = m; BASE_O = o; }
+  #[cfg(kani)]
+  return o;
+  #[cfg(not(kani))]
+  { let _ = o; return crate::refcal::ordinal(y, m, 1); }
+}
+
+/// Variant with the weekday of the 1st fixed by the job (wd = 0..6, one job per weekday): the day count of the 1st is the
+/// concrete representative 2451544 + k with weekday wd.  This is a stated bound on the magnitude only; that the weekday
+/// function depends on nothing but the day count's residue, for every day count in range, is obligation 07.a.
+/// Returns (day count of the 1st, year to use).  Natively the real calendar is in force: the year is moved to the
+/// nearest year of the same kind (leap status, same side of 1582) whose month starts on that weekday.
+pub fn set_base_wd(i: &mut crate::nd::In, y: i64, m: i64, wd: i64) -> (i64, i64) {
+  let _ = &i;
+  #[cfg(kani)]
+  {
+    // 2451545 is a Saturday (2000-01-01): weekday index (o + 1) % 7
+    let mut o = 2451544i64;
+    let mut k = 0;
+    while k < 7 { if (o + 1) % 7 != wd { o += 1; } k += 1; }
+    unsafe { BASE_Y = y; BASE_M = m; BASE_O = o; }
+    return (o, y);
+  }
+  #[cfg(not(kani))]
+  {
+    use crate::refcal::{is_leap, ordinal};
+    let ok = |yy: i64| yy >= 1 && yy <= 9999 && is_leap(yy) == is_leap(y) && (yy == 1582) == (y == 1582) && (yy < 1582) == (y < 1582) && (ordinal(yy, m, 1) + 1) % 7 == wd;
+    let mut k = 0;
+    while k < 3000 {
+      if ok(y + k) { return (ordinal(y + k, m, 1), y + k); }
+      if ok(y - k) { return (ordinal(y - k, m, 1), y - k); }
+      k += 1;
+    }
+    std::panic::panic_any(crate::nd::Unrealised);
+  }
+}
+
+/// day count of a date near the base month (harness side)
+pub fn rel_ord(y: i64, m: i64, d: i64) -> i64 {
+  #[cfg(kani)]
+  unsafe {
+    match refcal::rel_offset(BASE_Y, BASE_M, y, m, d) { Some(k) => BASE_O + k, None => { assert!(false, "date outside the base-month contract"); 0 } }
+  }
+  #[cfg(not(kani))]
+  { crate::refcal::ordinal(y, m, d) }
+}
+
+#[cfg(kani)]
+pub fn sd_jd_rel(s: &SolarDay) -> JulianDay {
+  JulianDay::from_julian_day(rel_ord(s.get_year() as i64, s.get_month() as i64, s.get_day() as i64) as f64 - 0.5)
+}
+
+// ---- SolarDay::next for small steps ---------------------------------------------------------------------------------
+/// Stand-in for `<SolarDay as Tyme>::next(n)`, |n| <= 45: the closed form `refcal::near` (lemma 14.L: it is n successor
+/// / predecessor steps; 01.c/01.d/01.g: so is the real function).  Larger steps are reported as a failed check, never
+/// assumed away; results outside 0001..9999 (where the real function panics) are outside the claim.
+#[cfg(kani)]
+pub fn sd_next_near(s: &SolarDay, n: isize) -> SolarDay {
+  let (y, m, d) = (s.get_year() as i64, s.get_month() as i64, s.get_day() as i64);
+  assert!(-45 <= n && n <= 45, "SolarDay::next used with a step outside the small-step contract");
+  match refcal::near(y, m, d, n as i64) {
+    Some((zy, zm, zd)) => SolarDay::from_ymd(zy as isize, zm as usize, zd as usize),
+    None => { kani::assume(false); SolarDay::from_ymd(1, 1, 1) }
+  }
+}
+
+/// `AbstractCulture::index_of` for small arguments as a 32-bit computation (engine B proves the real 64-bit function
+/// equal to the mathematical index mod size for every size in the source); arguments beyond 2^31 are a failed check.
+#[cfg(kani)]
+pub fn index_of_small(_s: &tyme4rs::tyme::AbstractCulture, index: isize, size: usize) -> usize {
+  assert!(-(1isize << 30) < index && index < (1isize << 30) && size > 0 && size < 4096, "index_of outside the small-argument contract");
+  let n = size as i32;
+  (((index as i32 % n) + n) % n) as usize
 }
